@@ -303,8 +303,10 @@ def module_aliases(data):
         items.add(re.sub(r"::<[^>]*>|<[^>]*>", "", f["path"]))
     for m in data.get("macros", []):
         items.add(m["path"])
+    for t in data.get("traits", []):
+        items.add(t["path"])
     items = {i for i in items if i and not i.startswith("<")}
-    types = {re.sub(r"<.*", "", a["path"]) for a in data.get("adts", [])}
+    types = {re.sub(r"<.*", "", a["path"]) for a in data.get("adts", [])} | {t["path"] for t in data.get("traits", [])}
     aliases = {}
     for a in anchor_paths():
         segs = a.split("::")
@@ -325,7 +327,42 @@ def module_aliases(data):
         if any((dst + i[len(src):]) in items for i in moved):
             continue    # the pinned path is taken: not a plain move
         out.append((src, dst))
+    # inherent impl blocks on a type of another module (`impl Gc<Lock<T>>` written in lock.rs is
+    # `lock::<impl gc::Gc<..>>::set`): when the block moves into a submodule (`lock::cell_lock::<impl gc::Gc<..>>::set`)
+    # and the pinned form is gone, the methods are read under the pinned module
+    raw = [f["path"] for f in data.get("fns", [])]
+    for (mod, ty, meth) in impl_anchor_paths():
+        pinned = "%s::<impl %s" % (mod, ty)
+        if any(r.startswith(pinned) and re.match(r"[<>]", r[len(pinned):len(pinned) + 1] or ">") and r.endswith("::" + meth) for r in raw):
+            continue
+        for r in raw:
+            m = re.match(r"^((?:[a-z_][a-z_0-9]*::)*[a-z_][a-z_0-9]*)::<impl %s(?![A-Za-z0-9_])" % re.escape(ty), r)
+            if m and r.endswith("::" + meth) and m.group(1) != mod and (m.group(1).startswith(mod + "::") or mod.startswith(m.group(1) + "::")
+                                                                        or m.group(1).rsplit("::", 1)[0] == mod.rsplit("::", 1)[0]):
+                pair = ("%s::<impl %s" % (m.group(1), ty), pinned)
+                if pair not in out:
+                    out.append(pair)
     return out
+
+
+_impl_anchor_cache = []
+
+
+def impl_anchor_paths():
+    """(module, self type, method) of every `module::<impl Type>::method` path the rules name."""
+    if _impl_anchor_cache:
+        return _impl_anchor_cache[0]
+    import glob
+    import re
+    pat = re.compile(r"[\"']((?:[a-z_][a-z_0-9]*::)*[a-z_][a-z_0-9]*)::<impl ([A-Za-z_][A-Za-z_0-9:]*)>::([A-Za-z_][A-Za-z_0-9]*)")
+    out = set()
+    here = os.path.dirname(os.path.abspath(__file__))
+    for f in glob.glob(os.path.join(here, "*.py")) + glob.glob(os.path.join(here, "props", "*.py")):
+        for m in pat.finditer(open(f).read()):
+            if not m.group(1).startswith(("core", "alloc", "std")):
+                out.add((m.group(1), m.group(2), m.group(3)))
+    _impl_anchor_cache.append(sorted(out))
+    return _impl_anchor_cache[0]
 
 
 def load_many(configs, repo=None):
